@@ -27,7 +27,7 @@ fn cursor_abuse<W: Num>(run: &mut Run, rng: &mut Rng) {
     let mut rev: Option<Reverse<Cursor<W, Vec<W>>>> = None;
     // only rarely shrink the buffer: every such case is expected to end the process in the
     // UB-detecting builds (known finding K2), which costs a process restart
-    let allow_shrink = rng.chance(1, 150);
+    let allow_shrink = rng.chance(1, 150) && run.index < 3000;
     let mut log: Vec<String> = Vec::new();
     let mut shrunk = false;
     let n = rng.usize_in(2, 16);
